@@ -40,9 +40,9 @@ DEV = consts(types=("spend", "mixed"), exp=(False,), init=(2,), damts=(1,), depo
              opts=("yes",), ctypes=("spend",), maxprop=1, maxdep=2)
 
 # thorough
-ONE_FULL = consts(submitter=("a", "b"), init=(0, 1, 2), opts=("yes", "no", "veto", "abstain", "split"), variants=("A", "B"), depperiod=2,
+ONE_FULL = consts(submitter=("a",), init=(0, 1, 2), opts=("yes", "no", "veto", "abstain", "split"), variants=("A", "B"), depperiod=2,
                   burn=(False, True, False))
-ONE_FULL2 = consts(variants=("A", "B"))
+ONE_FULL2 = consts(submitter=("b",), variants=("A", "B"))
 # two concurrent proposals: pool spend + a type with custom parameters, vetoes (burn), custom params on both types
 TWO_MIX = consts(types=("spend", "custom"), exp=(False,), init=(2,), damts=(1,), depositors=("b",), voters=("v1",), denoms=("fx",),
                  opts=("yes", "veto"), ctypes=("spend", "custom"), maxprop=2, maxdep=3)
